@@ -187,6 +187,9 @@ def norm_segs(segs):
             if s[1] == TRUE: out.extend(a); continue
             if s[1] == FALSE: out.extend(b); continue
             if a == b: out.extend(a); continue
+            if s[1][0] == 'bnot': s = ('cond', s[1][1], tuple(b), tuple(a)); a, b = list(s[2]), list(s[3])
+            # `if n > 0 { n repetitions }` is just n repetitions
+            if not b and len(a) == 1 and a[0][0] == 'rep' and s[1] == cmp('lt', ZERO, a[0][1]): out.extend(a); continue
             out.append(('cond', s[1], tuple(a), tuple(b)))
         elif s[0] == 'rep':
             body = tuple(norm_segs(s[3]))
@@ -704,6 +707,8 @@ class Interp:
                     for var in adt['variants']:
                         if var['name'] == pat['variant']: return cmp('eq', dt, C(var['discr']))
                 c = ('isvar', v.sym, pat['variant'])
+                if v.path == 'core::option::Option' and pat['variant'] == 'None': c = bnot(('isvar', v.sym, 'Some'))
+                if getattr(v, 'some_cond', None) is not None: c = v.some_cond if pat['variant'] == 'Some' else bnot(v.some_cond)
                 for s in pat['subs']:
                     sc = self.matches(s['pat'], self.enum_payload(v, pat['variant'], s['field']))
                     c = b_and(c, sc)
@@ -1070,8 +1075,12 @@ class Interp:
         return UNIT
 
     def iter_source(self, it):
-        if isinstance(it, RefV): it = it.place.get()
-        if isinstance(it, IterV): return it.seq, it.by_ref
+        while isinstance(it, RefV): it = it.place.get()
+        if isinstance(it, Top): return None, False
+        if isinstance(it, IterV):
+            sq = it.seq
+            while isinstance(sq, RefV): sq = sq.place.get()
+            return (sq if isinstance(sq, (SeqV, SliceV)) else None), it.by_ref
         if isinstance(it, SeqV): return it, False
         return None, False
 
